@@ -12,7 +12,8 @@ from collections import Counter
 from .. import refdbus as R
 from .. import busbox as B
 from .. import explore
-from ..engine import Violation
+from ..engine import Violation, Pool, crash_violation, worker_bus
+from ..vbox import HarnessDied
 from ..session import BusSession
 from ..models import names as N
 from ..registry import claim
@@ -507,8 +508,92 @@ class Session(BusSession):
         return self.impl_key() + '#' + self.which + '#' + repr(sorted(self.st.items())) + repr(self.waitq) + repr(sorted(self.age.items())) + self.reg.key()
 
 
+class StallSession(BusSession):
+    """B does not read: calls to it pile up inside the bus until max_outgoing_bytes refuses further ones."""
+
+    def __init__(self, params=None):
+        BusSession.__init__(self, params or {})
+        self.connect_slot('B')
+        self.bus.h.cmd('SRVSOCKBUF 4608')
+        self.connect_slot('A')
+        self.connect_slot('T')
+        self.bus.h.cmd('SOCKBUF %d 0 2048' % self.slots['B'])
+        for l in list(self.inbox):
+            self.take(l)
+
+    def config(self):
+        return B.make_config(limits={'max_outgoing_bytes': 3000, 'max_replies_per_connection': self.params.get('limit', 3), 'reply_timeout': 100000000})
+
+
+def task_stalled_recipient(scns):
+    """Pending replies are counted per caller: a call the bus REFUSES (the recipient's queue is full) changes nothing -- it takes
+    no slot -- and a caller below its limit is served.  For every number of calls to the stalled recipient and limit:"""
+    out = []
+    n = 0
+    for limit, ncalls in scns:
+        case = {'stalled_recipient': [limit, ncalls]}
+        try:
+            s = StallSession({'limit': limit})
+            s.bus.h.cmd('NODRAIN %d 1' % s.slots['B'])
+            held = 0
+            for i in range(ncalls):
+                c = s.slots['A']
+                ser = s.bus.next_serial(c)
+                s.send('A', R.method_call(ser, s.uname['B'], '/c', 'c.i', 'Ask', [R.S(b'p' * 12000)]))
+                for _ in range(6):
+                    s.bus.pump()
+                    s._distribute(s.bus.recvall())
+                errs = [o for o in s.take('A') if o.kind == R.MT_ERROR and o.rserial == ser]
+                n += 1
+                if held >= limit:
+                    if len(errs) != 1 or errs[0].errname != LIMITS_EXCEEDED:
+                        out.append(Violation('limit-exceeded', 'max_replies_per_connection', 'call %d to a stalled recipient with %d calls outstanding (limit %d): errors %r' % (i, held, limit, errs), case))
+                        break
+                elif not errs:
+                    held += 1
+                elif len(errs) == 1 and errs[0].errname == LIMITS_EXCEEDED:
+                    pass        # refused: the recipient's queue is full -- must not take a slot (checked against the dump below)
+                else:
+                    out.append(Violation('refused-below-limit', 'call', 'call %d to a stalled recipient answered %r' % (i, errs), case))
+                    break
+                recorded = sum(1 for line in s.impl_key().split('|') if line.startswith('reply get=@A '))
+                if recorded != held:
+                    out.append(Violation('refusal-changed-state' if recorded > held else 'model-differs', 'pending-replies-stalled-recipient',
+                                         'after call %d to a stalled recipient the bus records %d pending replies for the caller, %d calls were accepted (limit %d)' % (i, recorded, held, limit), case))
+                    break
+            else:
+                # a healthy third party: served iff the caller is below its limit
+                c = s.slots['A']
+                ser = s.bus.next_serial(c)
+                s.send('A', R.method_call(ser, s.uname['T'], '/c', 'c.i', 'Ask', [R.U(1)]))
+                got = [o for o in s.take('T') if o.kind == R.MT_CALL and o.serial == ser]
+                errs = [o for o in s.take('A') if o.kind == R.MT_ERROR and o.rserial == ser]
+                n += 1
+                if held < limit and (len(got) != 1 or errs):
+                    out.append(Violation('refused-below-limit', 'call-after-refusals', 'with %d of %d reply slots in use (after %d calls to a stalled recipient) a call to a healthy recipient was not delivered: %r' % (held, limit, ncalls, errs), case))
+                if held >= limit and (got or len(errs) != 1):
+                    out.append(Violation('limit-exceeded', 'max_replies_per_connection', 'with %d of %d reply slots in use a further call was delivered' % (held, limit), case))
+        except HarnessDied as e:
+            out.append(crash_violation(e, case))
+            worker_bus().h.close()
+    return {'viol': [v.to_json() for v in out], 'n': n}
+
+
 def run(ctx):
     quick = ctx.tier == 'quick'
+    pool = Pool()
+    nstall = 0
+    scns = [(limit, k) for limit in (1, 2, 3) for k in range(1, 6)]
+    try:
+        for r in pool.imap(task_stalled_recipient, [scns[i:i + 3] for i in range(0, len(scns), 3)]):
+            if '__crash__' in r:
+                ctx.add_violation(Violation('crash', r['__crash__'], r['stderr'], {'task': r['task']}))
+                continue
+            ctx.add_violations(r['viol'])
+            nstall += r['n']
+    finally:
+        pool.close()
+    ctx.coverage['stalled_recipient_calls'] = nstall
     depth = 7 if quick else 10
     with ctx.sub_budget(0.6):
         st = explore.bfs(ctx, FACTORY, {'small': quick}, max_depth=depth, ops_chunk=10)
@@ -524,4 +609,6 @@ def run(ctx):
 
 
 def replay(case):
+    if 'stalled_recipient' in case:
+        return [Violation.from_json(v) for v in task_stalled_recipient([tuple(case['stalled_recipient'])])['viol']]
     return explore.replay_history(FACTORY, case['params'], case['history'])
